@@ -84,6 +84,8 @@ struct ShutdownOnPanic(Arc<AtomicBool>);
 impl Drop for ShutdownOnPanic {
     fn drop(&mut self) {
         if std::thread::panicking() {
+            #[cfg(getong_stateright_verif)]
+            crate::verif::trace(crate::verif::TR_SIM_SHUTDOWN, 1, 0);
             self.0.store(true, Ordering::Relaxed);
         }
     }
@@ -136,6 +138,8 @@ where
                     let now = SystemTime::now();
                     if closing_time < now {
                         log::debug!("Reached timeout, triggering shutdown");
+                        #[cfg(getong_stateright_verif)]
+                        crate::verif::trace(crate::verif::TR_SIM_SHUTDOWN, 0, 0);
                         sd.store(true, Ordering::Relaxed);
                     }
                     if sd.load(Ordering::Relaxed) {
@@ -160,6 +164,8 @@ where
                 std::thread::Builder::new()
                     .name(format!("checker-{}", t))
                     .spawn(move || {
+                        #[cfg(getong_stateright_verif)]
+                        crate::verif::set_worker(t);
                         // If model code panics in this worker, the others must not keep running on
                         // their own (they have no other way to notice).
                         let _shutdown_on_panic = ShutdownOnPanic(Arc::clone(&shutdown));
@@ -170,6 +176,8 @@ where
                         loop {
                             if shutdown.load(Ordering::Relaxed) {
                                 log::debug!("{}: Got shutdown signal.", t);
+                                #[cfg(getong_stateright_verif)]
+                                crate::verif::trace(crate::verif::TR_SIM_LEAVE, 3, 0);
                                 break;
                             }
 
@@ -186,6 +194,8 @@ where
                                 &shutdown,
                             );
 
+                            #[cfg(getong_stateright_verif)]
+                            let _g = crate::verif::trace_guard();
                             // Check whether we have found everything.
                             // All threads should reach this check and have the same result,
                             // leading them all to shut down together.
@@ -194,10 +204,14 @@ where
                                 &properties,
                             ) {
                                 log::debug!("{}: Discovery complete. Shutting down...", t,);
+                                #[cfg(getong_stateright_verif)]
+                                crate::verif::trace(crate::verif::TR_SIM_LEAVE, 1, 0);
                                 return;
                             }
                             if let Some(target_state_count) = target_state_count {
                                 if target_state_count.get() <= state_count.load(Ordering::Relaxed) {
+                                    #[cfg(getong_stateright_verif)]
+                                    crate::verif::trace(crate::verif::TR_SIM_LEAVE, 2, 0);
                                     log::debug!(
                                         "{}: Reached target state count. Shutting down...",
                                         t,
@@ -206,6 +220,10 @@ where
                                 }
                             }
 
+                            #[cfg(getong_stateright_verif)]
+                            crate::verif::trace(crate::verif::TR_SIM_CONT, 0, 0);
+                            #[cfg(getong_stateright_verif)]
+                            drop(_g);
                             seed = rng.gen();
                             log::trace!("{}: Generated new thread seed={}", t, seed);
                         }
@@ -247,6 +265,8 @@ where
             initial_states.swap_remove(index)
         };
 
+        #[cfg(getong_stateright_verif)]
+        crate::verif::trace(crate::verif::TR_SIM_START, fingerprint(&state).get(), 0);
         let mut current_max_depth = global_max_depth.load(Ordering::Relaxed);
         // The set of actions.
         let mut actions = Vec::new();
@@ -269,6 +289,8 @@ where
         };
         'outer: loop {
             if shutdown.load(Ordering::Relaxed) {
+                #[cfg(getong_stateright_verif)]
+                crate::verif::trace(crate::verif::TR_SIM_END, 6, fingerprint_path.len() as u64);
                 // Timed out in the middle of a trace; it is not known to be terminal.
                 return;
             }
@@ -287,6 +309,8 @@ where
                         "Skipping exploring more states as past max depth {}",
                         fingerprint_path.len()
                     );
+                    #[cfg(getong_stateright_verif)]
+                    crate::verif::trace(crate::verif::TR_SIM_END, 3, fingerprint_path.len() as u64);
                     // return not break here as we do not know if this is terminal.
                     log::trace!("Reached max depth");
                     return;
@@ -297,6 +321,8 @@ where
             // below); there is no in-boundary path to report anything about.
             if !model.within_boundary(&state) {
                 log::trace!("Found state outside of boundary");
+                #[cfg(getong_stateright_verif)]
+                crate::verif::trace(crate::verif::TR_SIM_END, 4, fingerprint_path.len() as u64);
                 return;
             }
 
@@ -311,10 +337,18 @@ where
             if !inserted {
                 // found a loop
                 log::trace!("Found a loop");
+                #[cfg(getong_stateright_verif)]
+                crate::verif::trace(crate::verif::TR_SIM_END, 1, fingerprint_path.len() as u64);
                 break;
             }
 
+            #[cfg(getong_stateright_verif)]
+            let _g = crate::verif::trace_guard();
+            #[cfg(getong_stateright_verif)]
+            crate::verif::trace(crate::verif::TR_SIM_ENTER, fingerprint(&state).get(), fingerprint_path.len() as u64);
             state_count.fetch_add(1, Ordering::Relaxed);
+            #[cfg(getong_stateright_verif)]
+            drop(_g);
 
             if let Some(visitor) = visitor {
                 visitor.visit(
@@ -326,12 +360,20 @@ where
             // Done if discoveries found for all properties.
             let mut is_awaiting_discoveries = false;
             for (i, property) in properties.iter().enumerate() {
+                #[cfg(getong_stateright_verif)]
+                let _g = crate::verif::trace_guard();
                 if discoveries.contains_key(property.name) {
+                    #[cfg(getong_stateright_verif)]
+                    crate::verif::trace(crate::verif::TR_PROP, i as u64, 0);
                     // Stop tracking: the condition is no longer evaluated along this path, so
                     // a later terminal state must not replace the discovery.
                     ebits.remove(i);
                     continue;
                 }
+                #[cfg(getong_stateright_verif)]
+                crate::verif::trace(crate::verif::TR_SIM_MISS, i as u64, 0);
+                #[cfg(getong_stateright_verif)]
+                drop(_g);
                 match property {
                     Property {
                         expectation: Expectation::Always,
@@ -340,8 +382,14 @@ where
                     } => {
                         if !always(model, &state) {
                             // Races other threads, but that's fine.
+                            #[cfg(getong_stateright_verif)]
+                            let _g = crate::verif::trace_guard();
+                            #[cfg(getong_stateright_verif)]
+                            crate::verif::trace(crate::verif::TR_PROP, i as u64, 1);
                             discoveries.insert(property.name, fingerprint_path.clone());
                         } else {
+                            #[cfg(getong_stateright_verif)]
+                            crate::verif::trace(crate::verif::TR_PROP, i as u64, 2);
                             is_awaiting_discoveries = true;
                         }
                     }
@@ -352,8 +400,14 @@ where
                     } => {
                         if sometimes(model, &state) {
                             // Races other threads, but that's fine.
+                            #[cfg(getong_stateright_verif)]
+                            let _g = crate::verif::trace_guard();
+                            #[cfg(getong_stateright_verif)]
+                            crate::verif::trace(crate::verif::TR_PROP, i as u64, 1);
                             discoveries.insert(property.name, fingerprint_path.clone());
                         } else {
+                            #[cfg(getong_stateright_verif)]
+                            crate::verif::trace(crate::verif::TR_PROP, i as u64, 2);
                             is_awaiting_discoveries = true;
                         }
                     }
@@ -367,6 +421,8 @@ where
                         // states, so if we are here it means we are still awaiting a corresponding
                         // discovery regardless of whether the eventually property is now satisfied
                         // (i.e. it might be falsifiable via a different path).
+                        #[cfg(getong_stateright_verif)]
+                        crate::verif::trace(crate::verif::TR_PROP, i as u64, 2);
                         is_awaiting_discoveries = true;
                         if eventually(model, &state) {
                             ebits.remove(i);
@@ -377,6 +433,8 @@ where
             if !is_awaiting_discoveries {
                 // return not break here as this state is not known to be terminal.
                 log::trace!("Found all discoveries");
+                #[cfg(getong_stateright_verif)]
+                crate::verif::trace(crate::verif::TR_SIM_END, 5, fingerprint_path.len() as u64);
                 return;
             }
 
@@ -390,6 +448,8 @@ where
                     // no actions to choose from
                     // break from the outer loop so that we still check eventually properties
                     log::trace!("No actions to choose from");
+                    #[cfg(getong_stateright_verif)]
+                    crate::verif::trace(crate::verif::TR_SIM_END, 2, fingerprint_path.len() as u64);
                     break 'outer;
                 }
 
@@ -408,6 +468,8 @@ where
                         log::trace!("Next state outside of boundary");
                     }
                     Some(next_state) => {
+                        #[cfg(getong_stateright_verif)]
+                        crate::verif::trace(crate::verif::TR_SIM_NEXT, fingerprint(&next_state).get(), 0);
                         // now clear the actions for the next round
                         actions.clear();
                         state = next_state;
@@ -420,9 +482,15 @@ where
         for (i, property) in properties.iter().enumerate() {
             if ebits.contains(i) {
                 // Races other threads, but that's fine.
+                #[cfg(getong_stateright_verif)]
+                let _g = crate::verif::trace_guard();
+                #[cfg(getong_stateright_verif)]
+                crate::verif::trace(crate::verif::TR_RECORD, i as u64, 0);
                 discoveries.insert(property.name, fingerprint_path.clone());
             }
         }
+        #[cfg(getong_stateright_verif)]
+        crate::verif::trace(crate::verif::TR_SIM_DONE, 0, 0);
     }
 }
 
